@@ -27,7 +27,11 @@ WellFormedTable(dir, rem, O) ==
       TS == UNION { { <<"KF1", p, r[1]>> : r \in { q \in RunsOf(RS.added[p]) : q[2] = q[1] + 1 } } : p \in DOMAIN RS.added }
   IN IF rem THEN { x \in CoreTable(RS, O, TS) : SubSeq(x[1], 1, 3) \in {"C03", "C04", "C05"} /\ x[1] # "C04_d_avg_nodes" }
      ELSE { <<"C03_x_observers", St(C03_x(RS, O))>>, <<"C05_a_chronological", St(C05_a(RS, O))>>,
-            <<"C05_x_observers", St(C05_x(RS, O))>> }
+            <<"C05_x_observers", St(C05_x(RS, O))>>,
+            \* accumulative graph: presence, snapshot ids and stream in step with one another (every pair present from
+            \* its first instant to the largest snapshot id and nowhere else; one '+' per pair there, no '-')
+            <<"C08_a_presence_persists", St(C08_a(RS, O))>>,
+            <<"C08_b_one_plus_no_minus", St(C08_b(RS, O))>> }
 
 GuardTable(R, prevO, line) ==
   LET wf == { <<"C19_c_wellformed_" \o x[1], x[2]>> : x \in WellFormedTable(R.dir, R.rem, line.obs) } IN
